@@ -492,16 +492,12 @@ package grpctunnel
 //@     ghost acceptErr = result
 //@   at call halfClose#1
 //@     assert[C07,C13] @halfclose old(frame) is *tunnelpb.ClientToServer_HalfClose && arg1 == io.EOF
-//@   at call finishStream#1
-//@     assert[C07] @cancel old(frame) is *tunnelpb.ClientToServer_Cancel && arg1 == context.Canceled
+//@   at call finishStream#*
+//@     assert[C03,C06,C07,C09] @finishcases arg0 == st && ((old(frame) is *tunnelpb.ClientToServer_Cancel && arg1 == context.Canceled) || (old(frame) == nil && arg1 != nil) || (old(frame) != nil && !(old(frame) is *tunnelpb.ClientToServer_Cancel) && arg1 == acceptErr && acceptErr != nil))
 //@   at call updateWindow#1
 //@     assert[C05,C06] @credit old(frame) is *tunnelpb.ClientToServer_WindowUpdate && arg0 == as(old(frame), *tunnelpb.ClientToServer_WindowUpdate).WindowUpdate
-//@   at call finishStream#2
-//@     assert[C09] @unset old(frame) == nil && arg1 != nil
 //@   at call accept#1
 //@     assert[C01] @sameframe arg0 == old(frame)
-//@   at call finishStream#3
-//@     assert[C03,C06] @overrun arg1 == acceptErr && acceptErr != nil
 //@   ensures[C07,C09] @niltarget st == nil ==> count("call:finishStream") == 0 && count("call:halfClose") == 0 && count("call:accept") == 0 && count("call:updateWindow") == 0
 //@   ensures[C03]     @once      count("call:finishStream") <= 1
 //@   ensures[C06,C09,C16] @rejectedends count("call:accept") == 1 && acceptErr != nil ==> count("call:finishStream") == 1
@@ -783,14 +779,10 @@ package grpctunnel
 //@     assert[C11,C13] @settingsiff s.clientAcceptsSettings && count("go") == 0
 //@   at go#2
 //@     assert[C03,C08,C10,C13] @rejection createOK && createErr != nil
-//@   at return#1
-//@     assert[C03,C09] @eof recvErr == io.EOF
-//@   at return#2
-//@     assert[C03,C09] @carrier result == recvErr && recvErr != nil
-//@   at return#3
-//@     assert[C03,C08,C09] @idviolation !createOK && result == createErr
-//@   at return#4
-//@     assert[C03,C08,C09] @unknownid result == getErr && getErr != nil
+// Why the loop ends, independent of how its exits are laid out: clean end of
+// the carrier, a carrier error, an id violation reported by createStream, or a
+// frame for an id that was never created.
+//@   ensures[C03,C08,C09] @exits (result == nil && recvErr == io.EOF) || (result == recvErr && recvErr != nil && recvErr != io.EOF) || (!createOK && result == createErr && createErr != nil) || (result == getErr && getErr != nil)
 //@   loop 1 invariant true
 //@   ensures[C04,C14] @rootcancelled cancelCalled(cancel)
 //@   ensures[C04,C14] @handlerroot   count("call:createStream") > 0 ==> cancelCalled(cancelOf(root))
@@ -1035,16 +1027,13 @@ package grpctunnel
 //@   ghost acceptErr error = nil
 //@   at aftercall accept#1
 //@     ghost acceptErr = result
-//@   at call finishStream#1
-//@     assert[C09] @settings old(frame) is *tunnelpb.ServerToClient_Settings && arg1 != nil && arg2 == nil
 //@   ghost tl metadata.MD = nil
 //@   ghost hd metadata.MD = nil
 //@   ghost sp *status.Status = nil
 //@   ghost serr error = nil
-//@   at aftercall fromProto#1
-//@     ghost hd = result
-//@   at aftercall fromProto#2
-//@     ghost tl = result
+//@   at aftercall fromProto#*
+//@     ghost hd = ite(old(frame) is *tunnelpb.ServerToClient_ResponseHeaders, result, hd)
+//@     ghost tl = ite(old(frame) is *tunnelpb.ServerToClient_CloseStream, result, tl)
 //@   at aftercall FromProto#1
 //@     ghost sp = result
 //@   at call Err#1
@@ -1053,21 +1042,17 @@ package grpctunnel
 //@     ghost serr = result
 //@   at store headers#1
 //@     assert[C02] @hdrstored arg1 == hd
-//@   at call finishStream#2
-//@     assert[C02] @closestream old(frame) is *tunnelpb.ServerToClient_CloseStream
-//@     assert[C02,C07] @outcome arg0 == st && arg1 == serr && arg2 == tl
+// One clause for every call of finishStream, by the kind of frame being handled
+// (call sites are not numbered here: an edit that moves one case into a helper
+// must not rebind the others).
+//@   at call finishStream#*
+//@     assert[C02,C03,C06,C07,C09] @finishcases arg0 == st && ((old(frame) is *tunnelpb.ServerToClient_Settings && arg1 != nil && arg2 == nil) || (old(frame) is *tunnelpb.ServerToClient_CloseStream && arg1 == serr && arg2 == tl) || (old(frame) == nil && arg1 != nil && arg2 == nil) || (old(frame) != nil && !(old(frame) is *tunnelpb.ServerToClient_Settings) && !(old(frame) is *tunnelpb.ServerToClient_CloseStream) && arg1 == acceptErr && acceptErr != nil && arg2 == nil))
 //@   at call updateWindow#1
 //@     assert[C05,C06] @credit old(frame) is *tunnelpb.ServerToClient_WindowUpdate && arg0 == as(old(frame), *tunnelpb.ServerToClient_WindowUpdate).WindowUpdate
-//@   at call finishStream#3
-//@     assert[C09] @unset old(frame) == nil && arg1 != nil
 //@   at call accept#1
 //@     assert[C01] @sameframe arg0 == old(frame)
-//@   at call finishStream#4
-//@     assert[C03,C06] @overrun arg1 == acceptErr && acceptErr != nil && arg2 == nil
-//@   at call fromProto#1
-//@     assert[C02] @hdrsrc arg0 == as(old(frame), *tunnelpb.ServerToClient_ResponseHeaders).ResponseHeaders
-//@   at call fromProto#2
-//@     assert[C02] @tlrsrc arg0 == as(old(frame), *tunnelpb.ServerToClient_CloseStream).CloseStream.ResponseTrailers
+//@   at call fromProto#*
+//@     assert[C02] @mdsrc (old(frame) is *tunnelpb.ServerToClient_ResponseHeaders ==> arg0 == as(old(frame), *tunnelpb.ServerToClient_ResponseHeaders).ResponseHeaders) && (old(frame) is *tunnelpb.ServerToClient_CloseStream ==> arg0 == as(old(frame), *tunnelpb.ServerToClient_CloseStream).CloseStream.ResponseTrailers)
 //@   at call FromProto#1
 //@     assert[C02] @statussrc arg0 == as(old(frame), *tunnelpb.ServerToClient_CloseStream).CloseStream.Status
 //@   at close#1
